@@ -17,10 +17,15 @@ class SimClock(task.Clock):
     def __init__(self):
         super().__init__()
         self._created = []
+        self.delays = {}      # id(DelayedCall) -> delay in microseconds it was created with (kept alive in _keep)
+        self._keep = []
 
     def callLater(self, delay, callable, *args, **kw):
         dc = super().callLater(delay, callable, *args, **kw)
-        self._created.append((dc, int(round(delay * 1000000))))
+        us = int(round(delay * 1000000))
+        self._created.append((dc, us))
+        self.delays[id(dc)] = us
+        self._keep.append(dc)
         return dc
 
     def mark(self):
